@@ -29,7 +29,7 @@ ASSUMPTIONS = ['one generator resume counts as one invocation (CPython reports c
 REQUIRE = {'openings': 1500, 'span_openings': 600, 'capture_openings': 300, 'recursive_openings': 60,
            'openings_in_threads': 40, 'exception_exits': 60,
            'withdrawn_mid_flight': 30, 'several_span_processors': 100,
-           'openings_overlapping_same_function_in_another_thread': 40, 'deep_recursion_cases': 10, 'with_a_declining_span_processor': 30, 'snapshot_ahead_of_span': 15, 'captures_on_indirectly_recursive_functions': 10}
+           'openings_overlapping_same_function_in_another_thread': 40, 'deep_recursion_cases': 10, 'with_a_declining_span_processor': 30, 'snapshot_ahead_of_span': 15, 'with_spans_that_are_falsy_when_new': 30, 'captures_on_indirectly_recursive_functions': 10}
 
 
 def plan(tier, seed):
@@ -138,8 +138,12 @@ def case_deferred(seed, out, spec, wd, idx):
     n_proc = r.pick([1, 1, 2, 3])
     # (a later processor may decline spans - a sampling tracer returns None - the earlier ones' spans are still closed)
     decliner = r.chance(0.4)
+    # (the spans of the third processor have a length - events added so far - and are therefore falsy while new)
+    sized = r.chance(0.5)
+    if sized and n_proc == 3:
+        out.count('with_spans_that_are_falsy_when_new')
     span_plugins = [plugins.RecSpans(), plugins.make('RecSpans2', ['span_sampling' if decliner else 'span'], order=1)(),
-                    plugins.make('RecSpans3', ['span'], order=2)()][:n_proc]
+                    plugins.make('RecSpans3', ['span_sized' if sized else 'span'], order=2)()][:n_proc]
     rig = Rig(custom={'APP_ROOT': sub}, host_dir=sub, plugins=span_plugins + [plugins.RecDecorator()])
     rig.install(trigs)
     if r.chance(0.2):
